@@ -36,11 +36,17 @@ func NewWriter() *Writer {
 	return &Writer{}
 }
 
+// globalEventCounter makes event ids unique across all writers of the process.
+var globalEventCounter uint64
+
 // GenerateEventID creates a unique event ID.
 // This logic is moved from mcp.SSEResponder.nextEventID()
 func (sw *Writer) GenerateEventID() string {
 	timestamp := time.Now().UnixNano() / 1000000 // Millisecond timestamp
-	counter := atomic.AddUint64(&sw.eventCounter, 1)
+	// The counter is shared by all writers of the process: several writers may feed one stream
+	// (the notification sender and the responder of a POST response), and their ids must not collide
+	// when they are generated within the same millisecond.
+	counter := atomic.AddUint64(&globalEventCounter, 1)
 	return fmt.Sprintf("evt-%d-%d", timestamp, counter)
 }
 
